@@ -404,10 +404,12 @@ pub struct Emergency {
     pub shard: u64,
     /// (property, signature, detail) to record if a fatal fault happens now; None = inconclusive
     pub attribution: Option<(String, String, J)>,
+    /// optional filter on the faulting instruction bytes: the attribution only applies when it returns true
+    pub attribution_filter: Option<fn(&[u8]) -> bool>,
     pub t0: Option<std::time::Instant>,
 }
 
-pub static mut EMERGENCY_STATE: Emergency = Emergency { report: core::ptr::null_mut(), out: None, seed: 0, shard: 0, attribution: None, t0: None };
+pub static mut EMERGENCY_STATE: Emergency = Emergency { report: core::ptr::null_mut(), out: None, seed: 0, shard: 0, attribution: None, attribution_filter: None, t0: None };
 
 #[allow(static_mut_refs)]
 pub fn emergency() -> &'static mut Emergency {
@@ -420,6 +422,12 @@ pub fn fault_means(prop: &str, sig: String, detail: J) {
 }
 pub fn fault_means_nothing() {
     emergency().attribution = None;
+    emergency().attribution_filter = None;
+}
+/// like `fault_means`, but only for faults whose instruction bytes satisfy `filter`
+pub fn fault_means_if(prop: &str, sig: String, detail: J, filter: fn(&[u8]) -> bool) {
+    emergency().attribution = Some((prop.to_string(), sig, detail));
+    emergency().attribution_filter = Some(filter);
 }
 
 pub fn emergency_exit(sig: i32, addr: u64, rip: u64, bytes: &[u8]) -> ! {
@@ -431,7 +439,12 @@ pub fn emergency_exit(sig: i32, addr: u64, rip: u64, bytes: &[u8]) -> ! {
     }
     let rep = unsafe { &mut *e.report };
     let fault = J::obj(vec![("signal", J::I(sig as i64)), ("fault_address", J::hex(addr)), ("rip", J::hex(rip)), ("code_bytes", J::s(format!("{:02x?}", bytes)))]);
-    match e.attribution.take() {
+    let applies = match e.attribution_filter {
+        Some(f) => f(bytes),
+        None => true,
+    };
+    let attr = if applies { e.attribution.take() } else { None };
+    match attr {
         Some((prop, sig_s, detail)) => {
             rep.violation_for(&prop, &sig_s, J::obj(vec![("fault", fault), ("context", detail)]));
             code = 1;
